@@ -391,7 +391,20 @@ class HeapMixin:
             def mk():
                 rec = ObjRec(cls, {}, sym=nm)
                 return rec
-            return self.sym_ref(nm, "obj", cls, mk)
+            known = nm in self.run.sym_oids
+            ref_ = self.sym_ref(nm, "obj", cls, mk)
+            if not known and r.preds:
+                for pent in r.preds:
+                    ptxt, penv = pent if isinstance(pent, tuple) else (pent, {})
+                    node = self.verifier.parse_clause(ptxt)
+                    self.pure += 1
+                    try:
+                        env = dict(penv)
+                        env["x"] = ref_
+                        self.run.assume(self.truthy(self.eval(node, E.Frame("<spec>", None, env, None, "elemfact"))))
+                    finally:
+                        self.pure -= 1
+            return ref_
         if r.elem[0] == "callback":
             return VCallback(f"{r.sym}[{pos}]")
         return self.fresh(r.elem, self.run.fresh_name(f"{r.sym}[{pos}]"))
